@@ -119,7 +119,7 @@ def run_scenario(shape, edits, vals, expect_exception=None):
 
 def scenario_space(tier, seed, kinds=None, funcs=(False, True), cfis=("none",), anns=("none",), patches=None, doubles=True, data_follows=(False,), multi=True, callee2=(False,), bare=(False,), gaps=(False,), pes=(False, True)):
     kinds = kinds or list(scen.KINDS)
-    patches = patches or ["plain", "jmpL2", "ret", "callg", "jcc", "lab", "lab0", "jmplab", "samehead", "samehead2", "selfloop", "twocalls"]
+    patches = patches or ["plain", "jmpL2", "ret", "callg", "jcc", "lab", "lab0", "jmplab", "samehead", "samehead2", "selfloop", "twocalls", "callfret"]
     rnd = random.Random(seed)
     for kind, fn, cfi, ann, df, c2, br1, gp, pe in itertools.product(kinds, funcs, cfis, anns, data_follows, callee2, bare, gaps, pes):
         if pe and (gp or br1 or (tier == "quick" and (ann not in ("none", "block") or cfi not in ("none", "whole")))):
@@ -149,7 +149,7 @@ def scenario_space(tier, seed, kinds=None, funcs=(False, True), cfis=("none",), 
                         yield shape, [(op, 0, sizes[t], None, t) for op, t in zip(ops, combo)]
             # single insertions at the boundaries of the OTHER blocks (start of b2, end and start of b0) with the patches of this space
             for pn in patches:
-                if pn in ("cfi", "plain", "selfloop", "lab0"):
+                if pn in ("cfi", "plain", "selfloop", "lab0", "cficlob", "cfiscratch", "cfilab"):
                     yield shape, [("ins", 0, 0, pn, 2)]
                     yield shape, [("ins", sizes[0], 0, pn, 0)]
                     yield shape, [("ins", 0, 0, pn, 0)]
